@@ -207,7 +207,10 @@ def _mk_callable(rt, path, nd, entry):
     fname = nd.get("fname", nd["name"])
     is_async = nd["is_async"] and entry in ("call", "handler")     # an interrupt's handler may be `async def` too
     is_gen = nd["fn"] == "gen" and entry == "call"
-    if is_gen and is_async:        # async generator: the runner collects the yielded items into a list
+    if is_gen and not nd["ndata"]:   # a generator without outputs: what it yields is discarded, its body still has to run
+        src = (f"async def {fname}({params}):\n    await RT.acall({path!r}, {argt})\n    yield None\n" if is_async
+               else f"def {fname}({params}):\n    RT.call({path!r}, {argt})\n    yield None\n")
+    elif is_gen and is_async:        # async generator: the runner collects the yielded items into a list
         src = f"async def {fname}({params}):\n    r = await RT.acall({path!r}, {argt})\n    yield r + '#0'\n    yield r + '#1'\n"
     elif is_gen:                   # generator
         src = f"def {fname}({params}):\n    r = RT.call({path!r}, {argt})\n    yield r + '#0'\n    yield r + '#1'\n"
